@@ -25,7 +25,8 @@ def correspondence(ctx, model_available=True):
     quick = ctx.tier == "quick"
     rng = ctx.rng
     n = 60 if quick else 700
-    sessions = dp.make_sessions(rng, n, lambda k: dc.RUN_KINDS, finish_of=lambda k: True, inner_calls=0.3)
+    sessions = dp.make_sessions(rng, n, lambda k: dc.RUN_KINDS, finish_of=lambda k: True, inner_calls=0.3,
+                                fixed_texts=dp.LEAVING)
     res = dp.correspondence("C11s", sessions, model_available, check_history=False)
     spec_failures = []
     stats = {"oracle_sessions": 0, "commands": 0, "finished": 0, "warnings": 0}
@@ -58,7 +59,7 @@ def correspondence(ctx, model_available=True):
 
 def search(ctx, breaks):
     out = []
-    sessions = dp.make_sessions(ctx.rng, 150, lambda k: dc.RUN_KINDS, finish_of=lambda k: True)
+    sessions = dp.make_sessions(ctx.rng, 150, lambda k: dc.RUN_KINDS, finish_of=lambda k: True, fixed_texts=dp.LEAVING)
     for s in sessions:
         p, _ = dp.run_oracle(s)
         if p:
